@@ -11,6 +11,7 @@ HARNESSES = {
     },
     "H2": {"pkg": ".", "run": "^TestVerifH2$", "streams": ["h2"], "toolchain": "go1.26.0", "timeout": (900, 3000)},
     "H9": {"pkg": ".", "run": "^TestVerifH9$", "streams": ["h9"], "toolchain": "go1.26.0", "timeout": (300, 600)},
+    "H8": {"pkg": ".", "run": "^TestVerifH8$", "streams": ["h8"], "toolchain": "go1.26.0", "timeout": (300, 900)},
     "H1": {"pkg": "./internal/proto/", "run": "^TestVerifH1$", "streams": ["h1"], "toolchain": None,
            "timeout": (600, 2400)},
 }
@@ -125,6 +126,21 @@ PROPS["C18"] = {
     "assumptions": ["PARTIAL: data-race freedom in the sense of the Go memory model and scheduler-dependent deadlock outside the modelled mutexes are outside any Lean model; "
                     "the guarded/balanced skeleton theorems are the provable core, H9 and the race detector are supporting evidence only",
                     "lock-order acyclicity across functions is not yet derived (no callee summaries in the lock skeleton)"],
+}
+
+PROPS["C20"] = {
+    "modules": ["TurnModel.Props.C20"], "gen": True,
+    "harnesses": ["H8"], "view": ["pr"], "outs": None,
+    "alarms": ["intn-argument-wrong", "generator-leaks-socket-on-error", "advertised-ip-wrong", "advertised-port-not-bound", "port-out-of-range",
+               "requested-port-not-honoured", "static-generator-address", "none-generator-address", "shared-relay-port-udp4", "shared-relay-port-tcp4"],
+    "rule": "regenerated obligation: the port expression of AllocatePacketConn and AllocateListener is re-translated from the Go AST to BitVec 16 on every run and port_in_range is "
+            "re-proved for all (min,max,k). H8 drives the real RelayAddressGeneratorPortRange (UDP and TCP) with a scripted Rand on a fake transport.Net (bind succeeds iff port free): all "
+            "(min,max) on the boundaries {1,2,1023,1024,32767,32768,65534,65535}^2 x Intn extremes, MaxRetries {1,3,10} x 0..retries+1 ports in use, requested ports, random ranges with "
+            "fill/drain; the M9 model replays every case; plus the Static/None generators' advertised address and real loopback sockets for the no-shared-port clause; "
+            "distinct = (op kind, outcome) pairs",
+    "trusted_base": LEAN_TB + ["translator /verif/xlate for the port expression (uint16 -> BitVec 16; refuses anything but +, -, conversions, MinPort/MaxPort, Intn)",
+                               "hand-written loop model TurnModel/Model/PortRange.lean tied by correspondence harness H8"],
+    "assumptions": ["no_shared_port assumes the network refuses to bind a port in use; the bundled generators open TCP listeners with SO_REUSEPORT, for which this is false (finding F18)"],
 }
 
 PROOF_NOTE = ("Trusted: Lean 4.33.0 kernel, axioms propext/Classical.choice/Quot.sound only (audited per theorem on every run), "
